@@ -47,7 +47,10 @@ func NewIncreaseLevelCore(core Core, level LevelEnabler) (Core, error) {
 }
 
 func (c *levelFilterCore) Enabled(lvl Level) bool {
-	return c.level.Enabled(lvl)
+	// The filter can only narrow what the wrapped core accepts:
+	// NewIncreaseLevelCore validates the supported levels once, but other
+	// Level values and later changes of a dynamic level are not covered by it.
+	return c.level.Enabled(lvl) && c.core.Enabled(lvl)
 }
 
 func (c *levelFilterCore) Level() Level {
